@@ -6,7 +6,7 @@
 From Coq Require Import List NArith ZArith String.
 From Coq Require Import Strings.Byte.
 From GoBT Require Import lib.Bytes lib.Hex lib.Checked model.Push model.Asm model.Classify
-  spec.PushSpec spec.TemplateSpec proofs.PushProofs proofs.ClassifyProofs proofs.TemplateProofs.
+  spec.PushSpec spec.TemplateSpec proofs.PushProofs proofs.ClassifyProofs proofs.TemplateProofs proofs.AuditD14.
 Import ListNotations.
 Local Open Scope N_scope.
 
@@ -77,6 +77,32 @@ Theorem C14_p2pk_only_valid_key : forall s, is_p2pk s = Ok true ->
 Proof. exact is_p2pk_true_inv. Qed.
 Print Assumptions C14_p2pk_only_valid_key.
 
+(** "undecodable" read against the grammar that is written without the library (audit D): a byte string that
+    is not a sequence of complete tokens is never reported as a key-bearing type
+    (DecodeParts rejects exactly those: C13_decode_accepts_iff_wellformed) *)
+Theorem C14_not_wellformed_not_keybearing : forall s, ~ tokens s ->
+  script_type s <> Ok TPubKey /\ script_type s <> Ok TPubKeyHash /\ script_type s <> Ok TMultiSig /\
+  script_type s <> Ok TInscription.
+Proof. exact not_wellformed_not_keybearing. Qed.
+Print Assumptions C14_not_wellformed_not_keybearing.
+
+(** reported empty exactly for the empty script *)
+Theorem C14_empty_iff : forall s, script_type s = Ok TEmpty <-> s = [].
+Proof. exact script_type_empty_iff. Qed.
+Print Assumptions C14_empty_iff.
+
+(** the EXACT set of scripts reported "pubkey", at byte level: a push - any of the four forms - of a
+    key of valid version and length, followed by the opcode OP_CHECKSIG, or by a push (any form) of
+    data that merely STARTS with the byte 0xac. The second alternative is what IsP2PK does (it looks
+    at parts[1][0] and DecodeParts does not tell an opcode from pushed data): library behaviour,
+    wider than the P2PK template, stated here so that it is not hidden *)
+Theorem C14_pubkey_reported_iff : forall s, script_type s = Ok TPubKey <->
+  exists hk k tail, push_header hk (lenN k) /\ valid_pubkey k /\
+    (tail = [xac] \/ exists h2 d, push_header h2 (1 + lenN d) /\ tail = h2 ++ xac :: d) /\
+    s = hk ++ k ++ tail.
+Proof. exact p2pk_reported_iff. Qed.
+Print Assumptions C14_pubkey_reported_iff.
+
 (** ** non-vacuity: every template has instances; and the inputs on which the library used to panic
     or misclassify now evaluate to values in the model *)
 Definition h20 : bytes := repeat_byte 20 x11.
@@ -122,3 +148,8 @@ Example C14_empty_parts_evaluate :
   is_multisig_out [x4c; x00; x51; x51; x51; xae] = Ok false /\
   script_type [x4c; x00; x4c; x00] = Ok TNonStandard.
 Proof. repeat split; vm_compute; reflexivity. Qed.
+
+(** the wider-than-template case of [C14_pubkey_reported_iff] is inhabited: a key followed by a
+    two-byte data push ac 00 is reported "pubkey" *)
+Example C14_pubkey_with_data_push : script_type (push_direct k33 ++ [x02; xac; x00]) = Ok TPubKey.
+Proof. vm_compute. reflexivity. Qed.
